@@ -7,7 +7,7 @@ from concurrent.futures import ThreadPoolExecutor
 HERE = os.path.dirname(os.path.dirname(os.path.abspath(__file__)))
 EXPECTED_MISSED = {"C08", "C04c", "C04d", "C10e"}
 # deep restructurings of round 2 that still raise an alarm (documented limits, DESIGN App. C)
-EXPECTED_ALARM = {"MC04-n1", "MC07-n1", "MC07-n3", "MC11-n1", "MC11-n3", "MC18-n1"}
+EXPECTED_ALARM = {"MC04-n1", "MC07-n3", "MC11-n1", "MC11-n3", "MC18-n1"}
 
 def one(job):
     kind, name, patch, prop = job
